@@ -23,10 +23,17 @@ structure ReadCfg where
   readIndexFirst : Bool
   /-- `WaitApplied(index)` with the returned index sits between the two -/
   waitsApplied : Bool
+  /-- what entitles us to assume `ReadIndexContract` of etcd/raft at all: every
+  `LinearizableRead` issues a `RawNode.ReadIndex` of its own (fresh request context, no sharing
+  of a round that is already in flight) and the raft nodes run with `ReadOnlySafe` (the index is
+  only handed out after a heartbeat quorum acknowledged that very request).  Facts
+  `peer.readIndexPerRead`, `peer.readOnlyOption`, `peer.readIndexViaRaft`. -/
+  quorumPerRead : Bool
   deriving DecidableEq, Repr
 
-def ReadCfg.good : ReadCfg := ⟨true, true⟩
-def ReadCfg.Good (c : ReadCfg) : Prop := c.readIndexFirst = true ∧ c.waitsApplied = true
+def ReadCfg.good : ReadCfg := ⟨true, true, true⟩
+def ReadCfg.Good (c : ReadCfg) : Prop :=
+  c.readIndexFirst = true ∧ c.waitsApplied = true ∧ c.quorumPerRead = true
 instance ReadCfg.decGood (c : ReadCfg) : Decidable c.Good := by unfold ReadCfg.Good; exact inferInstance
 
 inductive Pc where
@@ -101,8 +108,11 @@ def flowOk (c : ReadCfg) (σ : RSys) : Ev → Prop
 structure RaftSafetyR (σ : RSys) (evs : List Ev) : Prop where
   ok : Along raftOk σ evs
 
-structure ReadIndexContract (σ : RSys) (evs : List Ev) : Prop where
-  ok : Along readIndexOk σ evs
+/-- etcd/raft's ReadIndex contract.  It is only *assumed* for configurations that justify it
+(`quorumPerRead`): with lease-based reads, or with readers attached to a round started before
+they arrived, the index a reader receives was not confirmed after that reader's request. -/
+structure ReadIndexContract (c : ReadCfg) (σ : RSys) (evs : List Ev) : Prop where
+  ok : c.quorumPerRead = true → Along readIndexOk σ evs
 
 structure Flow (c : ReadCfg) (σ : RSys) (evs : List Ev) : Prop where
   ok : Along (flowOk c) σ evs
